@@ -155,15 +155,11 @@ func cgroupScenario(s *Sim, params map[string]string) {
 					gen.Start(func(ctx context.Context) {
 						f.errAtStart = ctx.Err()
 						if f.selfExit {
-							tm := time.NewTimer(selfAfter)
-							select {
-							case <-ctx.Done():
-								tm.Stop()
+							if s.WaitDoneOrTimeout(ctx, selfAfter) {
 								f.doneStep, f.doneAt = s.Step, s.Now()
-							case <-tm.C:
 							}
 						} else {
-							<-ctx.Done()
+							s.WaitDone(ctx)
 							f.doneStep, f.doneAt = s.Step, s.Now()
 						}
 						if f.doneStep != 0 && !cgn.ended {
@@ -173,7 +169,7 @@ func cgroupScenario(s *Sim, params map[string]string) {
 							s.Fail("C15", "R2-ctx-err", "generation context error is %v, want ErrGenerationEnded", ctx.Err())
 						}
 						if linger > 0 && f.doneStep != 0 {
-							time.Sleep(linger)
+							s.Sleep(linger)
 						}
 						if f.doneStep == 0 && !cgn.ended {
 							// self exit ends the generation
@@ -187,7 +183,7 @@ func cgroupScenario(s *Sim, params map[string]string) {
 				// always one watcher so that the end of the generation is observed
 				f0 := &cgFn{gen: gi}
 				gen.Start(func(ctx context.Context) {
-					<-ctx.Done()
+					s.WaitDone(ctx)
 					f0.doneStep, f0.doneAt = s.Step, s.Now()
 					if !cgn.ended {
 						cgn.ended, cgn.endAt, cgn.endStep = true, s.Now(), s.Step
